@@ -64,10 +64,10 @@ func (o *Outcome) Absorb(r simrt.Result) {
 
 // Check is one property check of an area binary.
 type Check struct {
-	ID   string
-	Gen  func(r *simrt.Rand, tier string) any // returns a pointer to a JSON-serialisable plan
-	New  func() any                           // new empty plan for decoding
-	Run  func(plan any, cfg simrt.Config) *Outcome
+	ID  string
+	Gen func(r *simrt.Rand, tier string) any // returns a pointer to a JSON-serialisable plan
+	New func() any                           // new empty plan for decoding
+	Run func(plan any, cfg simrt.Config) *Outcome
 	// Shrink returns simpler candidate plans (each a fresh copy).
 	Shrink func(plan any) []any
 	// Desc is a short description of a plan for evidence samples.
